@@ -5,8 +5,12 @@ package main
 // Each oracle takes an op line and its implementation result and says whether the *property* fails there.
 
 import (
+	"bytes"
 	"encoding/json"
 	"fmt"
+	"strings"
+
+	"github.com/pion/rtcp"
 )
 
 var oracleJSON bool
@@ -44,15 +48,25 @@ func clip(s string, n int) string {
 
 // propertyFails returns a non-empty reason when the implementation's result on this op violates the
 // property itself (not merely differs from the model).
-func propertyFails(prop, op, res string) string {
-	name := op
+func propertyFails(prop, op, res string) (why string) { return propertyFailsL(prop, op, res, "") }
+
+// lean: the model's result line for the same op when known ("" otherwise); only C03 uses it, where the
+// model side of `encspec` is the declarative RFC rendering, i.e. the specification itself.
+func propertyFailsL(prop, op, res, lean string) (why string) {
+	defer func() {
+		if r := recover(); r != nil {
+			why = ""
+		}
+	}()
+	name, args := op, ""
 	if i := indexByte(op, ' '); i >= 0 {
-		name = op[:i]
+		name, args = op[:i], op[i+1:]
 	}
-	base := name
+	base, kind := name, ""
 	if i := indexByte(name, '.'); i >= 0 {
-		base = name[:i]
+		base, kind = name[:i], name[i+1:]
 	}
+	isOK := hasPrefix(res, "ok")
 	switch prop {
 	case "C01":
 		switch base {
@@ -64,22 +78,62 @@ func propertyFails(prop, op, res string) string {
 				return "decoder over-allocated: " + res
 			}
 		}
-	case "C02":
-		if base == "rt" && hasPrefix(res, "ok ") {
-			parts := splitSemi(res[3:])
-			if len(parts) < 3 {
-				return "own output not accepted / not re-marshalled: " + clip(res, 80)
+	case "C02", "C16":
+		if base == "rt" {
+			return rtOracle(args, res, false)
+		}
+		if base == "rto" {
+			p := getBody(NewR(args), kind)
+			if !wfPacket(p) {
+				return ""
 			}
-			if parts[0] != parts[2] {
-				return "re-marshal differs from first marshal"
+			if !isOK {
+				return tagged("own decoder or Marshal rejects a well-formed value: "+clip(res, 40), p)
 			}
-			want := quantPacketsTokens(op[len("rt "):])
-			if want != "" && want != parts[1] {
-				return "decoded list differs from original (after documented quantisation)"
+			if want := canonTokens(p); want != kind+" "+res[3:] && want != res[3:] {
+				return tagged("own decoder returns a different value", p)
+			}
+		}
+	case "C03":
+		if base == "encspec" && hasPrefix(lean, "ok") && res != lean {
+			p := getBody(NewR(args), kind)
+			if wfPacket(p) {
+				return tagged("Marshal output differs from the RFC layout (Spec/Wire.lean rendering: "+clip(lean, 80)+")", p)
+			}
+		}
+	case "C04":
+		if base == "decv" {
+			i := strings.Index(args, " | ")
+			if i < 0 {
+				return ""
+			}
+			want := args[i+3:]
+			tag := ""
+			if b := unhexOr(fieldsOf(args)[0]); kind == "REMB" && len(b) >= 20 && b[17]&3 == 0 && b[18] == 0 && b[19] == 0 {
+				tag = " [remb-mantissa-zero]"
+			}
+			if !isOK {
+				return "valid encoding rejected" + tag
+			}
+			if strings.Join(strings.Fields(res[3:]), " ") != strings.Join(strings.Fields(want), " ") {
+				return "decoded fields differ from the specified ones" + tag
+			}
+		}
+		if base == "dec" && (kind == "SR" || kind == "RR" || kind == "SDES" || kind == "BYE") && isOK {
+			b := NewR(args).H()
+			if countInflated(kind, b) {
+				return "header count exceeds the elements present, yet accepted"
 			}
 		}
 	case "C05":
 		if base == "framed" && hasPrefix(res, "ok ") {
+			p := getBody(NewR(args), kind)
+			if kind == "TWCC" && !twccConsistent(p.(*rtcp.TransportLayerCC)) {
+				return ""
+			}
+			if kind == "RAW" && !wfPacket(p) {
+				return ""
+			}
 			r := NewR(res[3:])
 			l, sz := r.N(), r.N()
 			if l > 262144 {
@@ -89,7 +143,7 @@ func propertyFails(prop, op, res string) string {
 				return fmt.Sprintf("len %d != MarshalSize %d", l, sz)
 			}
 			if l%4 != 0 {
-				return fmt.Sprintf("len %d not a multiple of 4", l)
+				return tagged(fmt.Sprintf("len %d not a multiple of 4", l), p)
 			}
 			if r.S() == "err" {
 				return "emitted header does not parse"
@@ -99,6 +153,106 @@ func propertyFails(prop, op, res string) string {
 			if int(h.Length) != l/4-1 {
 				return fmt.Sprintf("length field %d != %d", h.Length, l/4-1)
 			}
+			if hh, ok := p.(interface{ Header() rtcp.Header }); ok && kind != "RAW" {
+				if hh.Header() != h {
+					return "Header() differs from the emitted header"
+				}
+			}
+		}
+		if base == "csize" && isOK {
+			ps := getPackets(NewR(args))
+			sum := 0
+			for _, p := range ps {
+				sum += p.MarshalSize()
+			}
+			if fmt.Sprintf("ok %d", sum) != res {
+				return "compound size is not the sum of its members"
+			}
+		}
+	case "C06":
+		if base == "concat" && isOK {
+			parts := splitSemi(res[3:])
+			if len(parts) == 3 && parts[0] != "err" && parts[1] != "err" {
+				if parts[2] == "err" {
+					return "Unmarshal(a||b) fails although both parts decode"
+				}
+				a, b := getPackets(NewR(parts[0])), getPackets(NewR(parts[1]))
+				if packetsTokens(append(a, b...)) != parts[2] {
+					return "Unmarshal(a||b) != Unmarshal(a) ++ Unmarshal(b)"
+				}
+			}
+			if len(parts) == 3 && parts[2] != "err" && (parts[0] == "err" || parts[1] == "err") {
+				f := fieldsOf(args)
+				if len(f) == 2 && framesOK(unhexOr(f[0])) && framesOK(unhexOr(f[1])) {
+					return "a malformed part is accepted inside a datagram"
+				}
+			}
+		}
+		if (base == "udec" || base == "udecp") && res == "err" {
+			// frames of unregistered packet types have no body rules: a well-framed datagram of them must decode
+			b := NewR(args).H()
+			if framesOK(b) {
+				allRaw := true
+				for off := 0; off < len(b); off += (int(b[off+2])<<8|int(b[off+3]) + 1) * 4 {
+					if dispatchKind(b[off:]) != "RAW" {
+						allRaw = false
+						break
+					}
+				}
+				if allRaw {
+					return "a datagram of well-framed packets (all of unregistered types) is rejected"
+				}
+			}
+		}
+		if (base == "udec" || base == "udecp") && isOK {
+			b := NewR(args).H()
+			if len(b) == 0 {
+				return "empty datagram accepted"
+			}
+			if !framesOK(b) {
+				return "datagram with a trailing fragment accepted"
+			}
+			ps := getPackets(NewR(res[3:]))
+			if n := countFrames(b); n != len(ps) {
+				return fmt.Sprintf("%d frames but %d packets", n, len(ps))
+			}
+		}
+	case "C07":
+		if base == "dec" && isOK && kind != "RAW" && kind != "COMPOUND" {
+			b := NewR(args).H()
+			if u := dispatchKind(b); u != "" && u != "RAW" && u != kind && framesOK(b) && countFrames(b) == 1 {
+				// a well-formed packet of another registered type
+				if ps, err := rtcp.Unmarshal(exactCap(b)); err == nil && len(ps) == 1 && kindName(ps[0]) == u {
+					return "decoder of " + kind + " accepts a well-formed " + u + " packet"
+				}
+			}
+		}
+		if base == "rt" {
+			return rtOracle(args, res, true)
+		}
+		if base == "udec" && isOK {
+			b := NewR(args).H()
+			if framesOK(b) && countFrames(b) == 1 {
+				ps := getPackets(NewR(res[3:]))
+				want := dispatchKind(b)
+				if len(ps) == 1 && kindName(ps[0]) != want {
+					return "frame dispatched to " + kindName(ps[0]) + ", table says " + want
+				}
+				if len(ps) == 1 && want == "RAW" && !bytes.Equal([]byte(*ps[0].(*rtcp.RawPacket)), b) {
+					return "raw packet does not hold the frame verbatim"
+				}
+			}
+		}
+	case "C08":
+		if base == "enc" && isOK {
+			if why := limitExceeded(kind, args); why != "" {
+				return "Marshal accepted a value beyond a wire limit: " + why
+			}
+		}
+		if base == "enc" && res == "err" {
+			if atLimitOK(kind, args) {
+				return "Marshal rejected a value within all wire limits"
+			}
 		}
 	case "C09":
 		if base == "reenc" && hasPrefix(res, "ok ") {
@@ -107,15 +261,86 @@ func propertyFails(prop, op, res string) string {
 				return "Marshal of decoded packets panicked"
 			}
 			if len(parts) == 3 {
+				ps := getPackets(NewR(parts[0]))
+				for _, p := range ps {
+					if t, ok := p.(*rtcp.TransportLayerCC); ok && !twccConsistent(t) {
+						return ""
+					}
+				}
 				if parts[2] == "err" {
 					return "re-encoded bytes are rejected"
 				}
-				// compare second decode with first decode (post-marshal state is what parts[2] must equal
-				// after another marshal; XR header normalisation is handled by comparing re-decodes)
 				if quantReenc(parts[0]) != quantReenc(parts[2]) {
 					return "decode-encode-decode is not idempotent"
 				}
 			}
+		}
+	case "C10":
+		if base == "dst" && isOK {
+			p := getBody(NewR(args), kind)
+			if dstLine(specDest(p)) != res {
+				return "DestinationSSRC differs from the documented list"
+			}
+		}
+		if base == "rtdst" && isOK {
+			parts := splitSemi(res)
+			ps := getPackets(NewR(args))
+			if len(ps) == 1 && wfPacket(ps[0]) && kindName(ps[0]) != "SLI" {
+				if len(parts) != 2 || parts[0] != parts[1] {
+					return tagged("DestinationSSRC changes over an encode/decode round trip", ps[0])
+				}
+			}
+		}
+		if base == "cdst" && isOK {
+			ps := getPackets(NewR(args))
+			want := "ok 0"
+			if len(ps) > 0 {
+				want = dstLine(specDest(ps[0]))
+			}
+			if want != res {
+				return "compound DestinationSSRC is not the first member's"
+			}
+		}
+	case "C11":
+		ps := []rtcp.Packet(nil)
+		if base == "cval" || base == "ccname" || base == "cenc" || base == "csize" || base == "cdst" {
+			ps = getPackets(NewR(args))
+		}
+		switch base {
+		case "cval":
+			if specValidCompound(ps) != isOK {
+				return "Validate disagrees with the RFC 3550 grammar"
+			}
+		case "ccname":
+			if specValidCompound(ps) {
+				want := specFirstCNAME(ps)
+				if !isOK || res != okHex([]byte(want)) {
+					return "CNAME() does not return the first CNAME of a valid compound"
+				}
+			}
+		case "cenc":
+			_, err := rtcp.Marshal(ps)
+			if (specValidCompound(ps) && err == nil) != isOK {
+				return "CompoundPacket.Marshal succeeds iff Validate and members marshal: violated"
+			}
+		case "cdec":
+			b := NewR(args).H()
+			qs, err := rtcp.Unmarshal(exactCap(b))
+			if (err == nil && specValidCompound(qs)) != isOK {
+				return "CompoundPacket.Unmarshal succeeds iff datagram decodes and validates: violated"
+			}
+		}
+	case "C12":
+		return nackOracle(base, args, res)
+	case "C13":
+		if base == "dec" && kind == "TWCC" && isOK {
+			return twccOracle(NewR(args).H(), res[3:])
+		}
+	case "C14":
+		return rembOracle(base, kind, args, res)
+	case "C15":
+		if base == "enc" && kind == "XR" && isOK {
+			return xrOracle(args, res)
 		}
 	case "C17":
 		if hasPrefix(res, "panic") {
